@@ -4,7 +4,7 @@ from __future__ import annotations
 import z3
 
 from engine.common import Report, Ob
-from props._util import run_fv, section
+from props._util import run_fv, section, sections_parallel
 
 
 def run():
@@ -16,11 +16,7 @@ def run():
         "A-NP: D[np.ix_(idx, idx)] selects rows/columns idx; np.asarray(radii)[idx] selects the radii of idx",
         "A-SK: DBSCAN groups (see C01)",
     ]
-    section(rep, "cluster.init", lambda: _init(rep))
-    section(rep, "cluster.getdim", lambda: _getdim(rep))
-    section(rep, "merge", lambda: _merge(rep))
-    section(rep, "clean", lambda: _clean(rep))
-    section(rep, "localize", lambda: _localize(rep))
+    sections_parallel(rep, [("cluster.init", _init), ("cluster.getdim", _getdim), ("merge", _merge), ("clean", _clean), ("localize", _localize)])
     return rep
 
 
